@@ -2,12 +2,13 @@ import Hostd.Drive.Volumes
 open Hostd
 /-- arguments: `cachecopy` (sector cache holds private copies), `rollbackchecked` (StoreSector's rollback
 is conditional), `syncserial` (Sync is serialised and clears the dirty flag before the fsync), `resizelocked`
-(ResizeVolume reads the size under the status guard) select the repaired behaviour the model expects;
+(ResizeVolume reads the size under the status guard), `removeused` (a forced removal batch lowers used_sectors) select the repaired behaviour the model expects;
 none = the tree as first verified -/
 def main (args : List String) : IO Unit := do
   let f : Volumes.Facts := { Volumes.Facts.code with
     cacheCopies := args.contains "cachecopy"
     rollbackChecked := args.contains "rollbackchecked"
     syncSerial := args.contains "syncserial"
-    resizeStatLocked := args.contains "resizelocked" }
+    resizeStatLocked := args.contains "resizelocked"
+    removeUpdatesUsed := args.contains "removeused" }
   Proto.loop (← IO.getStdin) ({ f := f } : Drive.Volumes.DState) Drive.Volumes.step Drive.Volumes.stats
